@@ -1,0 +1,64 @@
+//go:build verif
+
+// Contracts for package gfd, checked by /verif/gvc (see /verif/DESIGN.md).
+// Layout (package comment): |loop index 1B|row 1B|column 2B|sequence 4B|fd 8B|, big endian.
+
+package gfd
+
+//@ pure be16(g GFD, o int) := g[o] * 256 + g[o+1]
+//@ pure be32(g GFD, o int) := g[o] * 16777216 + g[o+1] * 65536 + g[o+2] * 256 + g[o+3]
+//@ pure be64(g GFD, o int) := be32(g, o) * 4294967296 + be32(g, o+4)
+//@ pure pbe16(g *GFD, o int) := g[o] * 256 + g[o+1]
+//@ pure pbe32(g *GFD, o int) := g[o] * 16777216 + g[o+1] * 65536 + g[o+2] * 256 + g[o+3]
+//@ pure pbe64(g *GFD, o int) := pbe32(g, o) * 4294967296 + pbe32(g, o+4)
+//
+//@ func (gfd GFD) Fd() int
+//@   mode bv
+//@   ensures uint64(res) == be64(gfd, 8)
+//
+//@ func (gfd GFD) EventLoopIndex() int
+//@   mode bv
+//@   ensures res == gfd[0]
+//
+//@ func (gfd GFD) ConnMatrixRow() int
+//@   mode bv
+//@   ensures res == gfd[1]
+//
+//@ func (gfd GFD) ConnMatrixColumn() int
+//@   mode bv
+//@   ensures res == be16(gfd, 2)
+//
+//@ func (gfd GFD) Sequence() uint32
+//@   mode bv
+//@   ensures res == be32(gfd, 4)
+//
+//@ func (gfd *GFD) UpdateIndexes(row, column int)
+//@   mode bv
+//@   requires gfd != nil
+//@   modifies mem(gfd)
+//@   ensures gfd[1] == uint8(row) && pbe16(gfd, 2) == uint16(column)
+//@   ensures gfd[0] == old(gfd[0]) && pbe32(gfd, 4) == old(pbe32(gfd, 4)) && pbe64(gfd, 8) == old(pbe64(gfd, 8))
+//
+//@ func (gfd GFD) Validate() bool
+//@   mode bv
+//@   ensures res <==> (be64(gfd, 8) > 2 && be64(gfd, 8) <= 9223372036854775807 && be32(gfd, 4) > 0)
+//
+//@ func NewGFD(fd, elIndex, row, column int) (gfd GFD)
+//@   mode bv
+//@   modifies *monoSeq
+//@   ensures gfd[0] == uint8(elIndex) && gfd[1] == uint8(row) && be16(gfd, 2) == uint16(column)
+//@   ensures be64(gfd, 8) == uint64(fd)
+//
+// Round trip (property C20): packing and unpacking returns the same four values.
+//@ func lemmaRoundTrip(fd, el, row, col int) (a, b, c, d int)
+//@   mode bv
+//@   requires fd >= 0 && 0 <= el && el < 256 && 0 <= row && row < 256 && 0 <= col && col < 65536
+//@   modifies *monoSeq
+//@   ensures a == fd && b == el && c == row && d == col
+//
+//@ func lemmaUpdateIndexes(fd, el, row, col, row2, col2 int) (a, b, c, d int)
+//@   mode bv
+//@   requires fd >= 0 && 0 <= el && el < 256 && 0 <= row && row < 256 && 0 <= col && col < 65536
+//@   requires 0 <= row2 && row2 < 256 && 0 <= col2 && col2 < 65536
+//@   modifies *monoSeq
+//@   ensures a == fd && b == el && c == row2 && d == col2
